@@ -274,19 +274,22 @@ REPLAY_HELP = 'echo "[<case>]" | PYTHONPATH=/verif:/repo /venv/bin/python -m har
 
 LEVEL_TEXT = (
     'Coq theorem over a labelled transition system of the hub (non-atomic polling passes, per-port evaluation task with its '
-    'queue of snapshots, stale-compare short-cut, write completion at echo drivers, source changes, expression assignment) '
+    'queue of snapshots, stale-compare short-cut, write completion at echo drivers, source changes, expression assignment at any '
+    'moment, enabling and disabling of ports) '
     'instantiated with the concrete expression language: an inductive invariant (coverage of every dependency change by a '
     'queued/pending evaluation, freshness of the last read value whenever the evaluation task compares against it) proved for '
     'every event gives convergence at every quiescent state reachable by ANY trace; plus re-evaluation after every dependency '
-    'change and only then, and the frame property from deps_sound. Whether the evaluation task refreshes after its own write is '
-    'regenerated from ports.py on every run; the real polling loop, evaluation and write tasks are run on a virtual clock with '
+    'change and only then, and the frame property from deps_sound. Whether the evaluation task refreshes after its own write and '
+    'whether enabling a port forces a full evaluation are regenerated from ports.py/main.py on every run; the real polling loop, evaluation and write tasks are run on a virtual clock with '
     'scripted latencies and every step they take must be accepted by the LTS; the convergence predicate is also evaluated on '
     'the implementation at quiescence.'
 )
 LEVEL_NOTE = (
     'Trusted: Coq kernel incl. vm_compute; translator evalwrite.py; vloop and the instrumentation wrappers; asyncio scheduling '
     'is modelled by one LTS event per suspension point. Theorem scope is partial: integer ports, echo/source drivers, no '
-    'transforms, no enable/disable, expressions assigned at rest; those are covered by the differential oracle only. '
+    'transforms (known finding F13 lives there), ports with an expression are disabled only at rest (premise of the theorem; '
+    'the busy case is refuted in History/C01Old.v and is known finding F16), virtual/slave ports and device attributes as '
+    'dependencies are covered by the differential oracle only. '
     'No axioms (Print Assumptions: closed).'
 )
 TECHNIQUE = 'Coq proof of an inductive invariant over an LTS (any trace length/interleaving); translator + trace acceptance on a virtual clock'
